@@ -413,6 +413,20 @@ impl<T> Shared<T> {
       while !notified.load(Ordering::Acquire) {
         hint::spin_loop();
       }
+      // A notifier spent one of its wakes on us although we are already leaving (we got
+      // through on our own after registering). It sized its batch by the credits it freed,
+      // so pass the wake on; otherwise another parked sender sleeps while the window is open.
+      let mut g = self.sync_send_waiters.lock();
+      if let Some((_id, thread, notified)) = g.queue.pop_front() {
+        if !notified.is_null() {
+          unsafe { (*notified).store(true, Ordering::Release) };
+        }
+        self
+          .sync_send_waiter_count
+          .store(g.queue.len(), Ordering::Release);
+        drop(g);
+        thread.unpark();
+      }
     }
   }
 
